@@ -45,7 +45,8 @@ def run(chk):
                        '(exhaustive).  B: for every 2.1 SCO type (and a registered custom observable) x generator variants x value classes (JSON escapes, timestamps, '
                        'integers incl. 0, floats in extensions, reference lists): the id of the constructed and of the re-parsed object equals an independent recomputation '
                        '(own RFC 8785 canonicalizer + SHA-1); equal contributing values => equal ids across argument orders, dictionary orders, non-contributing changes and '
-                       'a fresh process; different contributing values => different ids; no contributing property => a random UUIDv4.')
+                       'a fresh process, and after new_version / revoke were applied to observables of every type (contributing lists unchanged); floats of every decade class '
+                       'in dictionary values and extension content; different contributing values => different ids; no contributing property => a random UUIDv4.')
     chk.trust('frozen id-contributing lists in spec/tables_v21.json', 'SHA-1 collision freedom for "different values give different ids"')
     for c in (K.choose_one_hash_contract(), K.observable_init_contract()):
         chk.prove(c); chk.canary(c)
@@ -76,6 +77,11 @@ def run(chk):
         for kw in ({'x_key': 'a'}, {'x_key': 'quote " backslash \\ \n   \U0001f600'}, {'x_num': 0}, {'x_num': 10**21}, {'x_num': 2**53 + 1}, {'x_list': [0, 1, 10**22]},
                    {'x_d': {'b': 1.5, 'a': [1e21, 1e-7], 'Z': {'n': 0}}}, {'x_key': 'a', 'x_num': 0, 'x_other': 'o'}, {'x_other': 'only non-contributing'}):
             yield ('2.1:observables:x-vf-sco:' + ','.join(kw), C, kw)
+        # floats of every decade class inside contributing values (dictionary values and nested extension content are the places a 2.1 SCO can hold one)
+        for f in (1.5e-05, 1.5e-04, 1.25e-06, 9.999e-05, 1e-06, 1e-05, 1.5e-07, 1e-07, 123456.789, 1e20, 1.5e20, 1e21, 1.5e21, 5e-324, 1.7976931348623157e308, -1.5e-05, 0.1, 0.30000000000000004, -0.0, 100.0):
+            yield (f'2.1:observables:x-vf-sco:x_d float {f!r}', C, {'x_d': {'f': f}})
+        for f in (1.5e-05, 1.5e-04, 7.25, 1e21):
+            yield (f'2.1:observables:file:pe section entropy {f!r}', stix2.v21.File, {'name': 'f', 'extensions': {'windows-pebinary-ext': {'pe_type': 'exe', 'sections': [{'name': 's', 'entropy': f}]}}})
         for kw in ({'number': 0}, {'number': 10**21}, {'number': 1, 'name': 'n'}):
             yield ('2.1:observables:autonomous-system:number=' + str(kw['number']), stix2.v21.AutonomousSystem, kw)
         yield ('2.1:observables:network-traffic:src_port=0', stix2.v21.NetworkTraffic, {'protocols': ['tcp'], 'src_ref': 'ipv4-addr--' + G.UUID, 'src_port': 0})
@@ -125,6 +131,33 @@ def run(chk):
         d = json.loads(o.serialize()); contributing = list(cls._id_contributing_properties)
         key = canon({k: (d[k] if k != 'hashes' else {next((h for h in HASH_ORDER if h in d[k]), None) or next(iter(d[k])): 1} and d[k]) for k in contributing if k in d}) if any(k in d for k in contributing) else None
         if key is not None: by_type.setdefault(d['type'], {}).setdefault(d['id'], set()).add(spec_id(d, contributing))
+    # ---- history: identifiers stay deterministic and the contributing lists stay what they were after versioning operations on observables
+    # (new_version / revoke on a versionable SCO given as object and as dictionary -- refused or not --, deepcopy, serialization, store round trip)
+    import stix2.versioning as V
+    before_lists = {cname: list(cls._id_contributing_properties) for cname, (cat, cls) in G.classes('2.1').items() if cat == 'observables'}
+    before_ids = {}
+    for n, (label, cls, kw) in enumerate(cc):
+        try: before_ids[n] = cls(**copy.deepcopy(kw))['id']
+        except Exception: pass
+    for cname, (cat, cls) in sorted(G.classes('2.1').items()):
+        if cat != 'observables': continue
+        try: o = cls(allow_custom=True, created=G.T1, modified=G.T1, revoked=False, **{k: v for k, v in G.minimal(cls, '2.1').items() if k != 'id'})
+        except Exception: continue
+        for op in (lambda: V.new_version(o, modified=G.T2), lambda: V.new_version(json.loads(o.serialize()), modified=G.T2), lambda: V.revoke(o), lambda: V.revoke(json.loads(o.serialize())),
+                   lambda: V.new_version(o, x_new=1, allow_custom=True), lambda: copy.deepcopy(o), lambda: stix2.MemoryStore([o], allow_custom=True).get(o['id'])):
+            try: op()
+            except Exception: pass
+    for cname, (cat, cls) in sorted(G.classes('2.1').items()):
+        if cat == 'observables' and list(cls._id_contributing_properties) != before_lists[cname]:
+            chk.violation(f'history#contributing list changed:{cname}', f'{cname}: after versioning operations the id-contributing list is {list(cls._id_contributing_properties)}, before {before_lists[cname]}', {})
+    for n, (label, cls, kw) in enumerate(cc):
+        if n not in before_ids: continue
+        try: now = cls(**copy.deepcopy(kw))['id']
+        except Exception: continue
+        spec_has = any(k in kw for k in cls._id_contributing_properties) or any(k in before_lists.get(':'.join(label.split(':')[1:3]), []) for k in kw)
+        if spec_has and now != before_ids[n]:
+            chk.violation(f'history#same content, other id after versioning operations:{label.split(":")[2]}', f'{label}: id {before_ids[n]} before and {now} after new_version/revoke were used on observables of this process', {'kwargs': repr(kw)})
+            break
     # same process vs fresh process
     sample = json.loads(stix2.v21.File(name='f', hashes={'MD5': 'a' * 32}).serialize())
     r = subprocess.run([sys.executable, '-c', "import stix2, json; print(stix2.v21.File(name='f', hashes={'MD5': 'a'*32})['id'])"], capture_output=True, text=True, env=dict(os.environ))
